@@ -53,6 +53,15 @@ pub fn spawn_server<S>(handler: &Handler, comp: &CompCfg, opts: &ServerOpts, rx:
 where
     S: Future<Output = ()> + Send + 'static,
 {
+    spawn_server_hooked(handler, comp, opts, rx, shutdown, None)
+}
+
+/// `on_yield` is called with the connection id at the instant the incoming stream hands that
+/// connection to the server's accept loop (used to place a fault exactly there).
+pub fn spawn_server_hooked<S>(handler: &Handler, comp: &CompCfg, opts: &ServerOpts, rx: UnboundedReceiver<SimStream>, shutdown: Option<S>, mut on_yield: Option<Box<dyn FnMut(usize) + Send>>) -> tokio::task::JoinHandle<Result<(), tonic::transport::Error>>
+where
+    S: Future<Output = ()> + Send + 'static,
+{
     let raw = crate::c02::configure!(crate::rawsvc::raw_server::RawServer::new(handler.clone()), comp, server);
     let echo = crate::c02::configure!(crate::pb::echo_server::EchoServer::new(handler.clone()), comp, server);
     let bare = crate::c02::configure!(crate::nopkg::bare_server::BareServer::new(handler.clone()), comp, server);
@@ -73,7 +82,12 @@ where
         b = b.concurrency_limit_per_connection(c);
     }
     let router = b.add_service(raw).add_service(echo).add_service(bare);
-    let incoming = tokio_stream::wrappers::UnboundedReceiverStream::new(rx).map(Ok::<_, std::io::Error>);
+    let incoming = tokio_stream::wrappers::UnboundedReceiverStream::new(rx).map(move |io| {
+        if let Some(f) = on_yield.as_mut() {
+            f(io.conn_id());
+        }
+        Ok::<_, std::io::Error>(io)
+    });
     tokio::spawn(async move {
         match shutdown {
             Some(sig) => router.serve_with_incoming_shutdown(incoming, sig).await,
@@ -112,7 +126,8 @@ pub fn net_and_connector(sim: &Sim, cfg: NetCfg, script: Vec<ConnectStep>) -> (S
 }
 
 pub fn draw_h2_opts(sim: &Sim) -> (ServerOpts, ClientOpts) {
-    let win = |s: &Sim| if s.chance(1, 2) { Some(s.pick(&[1u32, 64, 1024, 65_535, 1 << 20])) } else { None };
+    // windows stay below the pipe capacity (>= 256 KiB), see simnet::NetCfg::draw
+    let win = |s: &Sim| if s.chance(1, 2) { Some(s.pick(&[64u32, 1024, 65_535, 200_000])) } else { None };
     (
         ServerOpts { timeout: None, stream_window: win(sim), conn_window: win(sim), max_frame: if sim.chance(1, 3) { Some(sim.pick(&[16_384u32, 20_000, 1 << 20])) } else { None }, concurrency_limit: None },
         ClientOpts { timeout: None, stream_window: win(sim), conn_window: win(sim), lazy: sim.chance(1, 2) },
